@@ -299,6 +299,10 @@ def _add(bundle: Bundle, val: BundleAttr) -> BundleAttr:
         msg = f"Invalid Bundle attribute {val} for {bundle}"
         raise TypeError(msg)
 
+    # Remove any prior attribute of the same name, which may be of a different type, from its type-specific container
+    for ctr in (bundle.signals, bundle.bundles):
+        ctr.pop(val.name, None)
+
     # Add it to the bundle namespace, and the type-specific container
     type_ctr[val.name] = val
     bundle.namespace[val.name] = val
